@@ -2,6 +2,7 @@ package spg
 
 import (
 	"fmt"
+	"log"
 	"math"
 	"strings"
 )
@@ -121,7 +122,7 @@ func NewWordList(list []string) (*WordList, error) {
 		// We just need to log a warning here. Not sure how we are handling that.
 		// I could create a brain with standard logger and use that, but that seems
 		// wrong. So let's just do this
-		fmt.Printf("%d duplicate words found when setting up word list generator\n", len(list)-len(ourWords))
+		log.Printf("%d duplicate words found when setting up word list generator\n", len(list)-len(ourWords))
 	}
 	result := &WordList{
 		words:                ourWords,
